@@ -3,6 +3,6 @@ INVARIANT CircuitLaws
 CONSTANTS
   MaxDim = 2
   PhaseGen = 12
-  MaxOps = 3
-  Regs <- RegsThorough
+  MaxOps = 2
+  Regs <- Regs3
 CHECK_DEADLOCK FALSE
